@@ -7,7 +7,7 @@
       [contents] lines of a file by resolved identity. *)
 From Coq Require Import NArith List Bool.
 From Exactly Require Import Model.Doc Spec.C07 Proofs.DocBasics Proofs.DocReader Proofs.DocTerm Proofs.DocOrder
-     Proofs.DocParseSource Proofs.DocLocated Proofs.DocBlocks Proofs.DocExamples.
+     Proofs.DocParseSource Proofs.DocLocated Proofs.DocErrLocated Proofs.DocRefine Proofs.DocBlocks Proofs.DocExamples.
 Import ListNotations.
 Local Open Scope N_scope.
 
@@ -102,6 +102,44 @@ Theorem C07_source_location_exact :
     forall s e, In e (d s) -> located_element fs contents root dir path s e = true.
 Proof. exact source_location_exact. Qed.
 Print Assumptions C07_source_location_exact.
+
+(** Error reports: a parse that ends with a FileSourceError / FileAccessError names the file, the chain of
+    inclusion directives that led to it (each a real [including TOKEN] line at the stated number of the file
+    before it), and lines that are lines of that file at the stated number ([came_from]: up to surrounding
+    white space / a preceding description); an access error names, last in its chain, the directive whose
+    file is missing, or resolves to a file that is already being included (cyclic).
+    PARTIAL: excluded by hypothesis is the error an instruction parser raises after having consumed input
+    ([IErrAt]; its source is computed by _ErrMsgSourceConstructor.ending_at from a character count) — that
+    case is tied to the code by the correspondence check and the boolean predicate only. *)
+Theorem C07_error_location_exact_partial :
+  forall iparse fs contents depth root path dir ls e,
+    (forall s r rest n, iparse s r rest <> IErrAt n) ->
+    contents root = Some ls ->
+    parse_root iparse fs contents depth root path dir ls = Err e ->
+    match e with
+    | ECrash | EFuel | EOracle => True
+    | _ => located_error fs contents root dir path e = true
+    end.
+Proof. exact error_location_exact. Qed.
+Print Assumptions C07_error_location_exact_partial.
+
+(** The two layers fit: for a file whose lines are [l :: ls] (no newline inside a line) ParseSource starts
+    at line 1 with text [l]; consume_current_line moves to the next line of the list and adds 1 to the number
+    (after the last line there is no current line); is_at_eof is the reader's end-of-file test on the list. *)
+Theorem C07_line_reader_refines_parse_source :
+  forall k l ls,
+    Forall line_ok (l :: ls) ->
+    ps_init (join_lines (l :: ls)) = ps_at 0 (l :: ls) /\
+    ps_consume_current_line (ps_at k (l :: ls)) = Some (ps_at (S k) ls) /\
+    ps_is_at_eof (ps_at k (l :: ls)) = at_eof (l :: ls) /\
+    ps_line (ps_at k (l :: ls)) = Some (1 + N.of_nat k) /\ ps_cur (ps_at k (l :: ls)) = l.
+Proof.
+  intros k l ls H. repeat split.
+  - apply ps_init_lines. assumption.
+  - apply ps_consume_line_lines. assumption.
+  - apply ps_at_eof_lines.
+Qed.
+Print Assumptions C07_line_reader_refines_parse_source.
 
 (** Inclusion is a splice: where the reader stands at an inclusion directive (phase [cur]), its result is
     the result so far, then the included file read with [cur] as its default phase (merged per phase by
